@@ -254,6 +254,27 @@ class Env:
             self._dep_cache[key] = ovld.dependent.dependent_check(cond)
         return self._dep_cache[key]
 
+    def wild_check(self):
+        """a parametrised @dependent_check type the way docs/dependent.md writes `Shape`: declared on tuple, parameters
+        are values or typing.Any wildcards"""
+        key = ("wild",)
+        if key not in self._dep_cache:
+            log = self.predlog
+
+            def Wild(value: tuple, *shape):
+                log.value_count += 1
+                if log.fault_at is not None:
+                    log.fault_count += 1
+                    if log.fault_count == log.fault_at:
+                        raise HookFault("Wild")
+                ok = isinstance(value, tuple)
+                if log.keep and (not ok or len(log.value_calls) < 64):
+                    log.value_calls.append(("Wild", "tuple", ok, repr(value)[:40]))
+                return ok and len(value) == len(shape) and all(s is typing.Any or e == s for e, s in zip(value, shape))
+
+            self._dep_cache[key] = ovld.dependent.dependent_check(Wild)
+        return self._dep_cache[key]
+
     def class_pred(self, predname):
         if predname not in self._cc_cache:
             raw = CLASS_PREDS[predname]
@@ -284,6 +305,8 @@ def tname(tx):
         return f"{h}[{a[0]!r}]"
     if h == "HK":
         return "HK[" + ",".join(repr(x) for x in a) + "]"
+    if h == "W":
+        return "W[" + ",".join(str(x) for x in a) + "]"
     if h == "D":
         return f"D[{tname(a[0])},{a[1]}" + (",shared]" if len(a) > 2 else "]")
     if h == "G":
@@ -294,7 +317,7 @@ def tname(tx):
     return h + "[" + ",".join(tname(x) for x in a) + "]"
 
 
-VALUE_DEP_HEADS = {"L", "D", "T", "Ls", "Sq", "Co", "Mp", "Dc", "Rx", "SW", "EW", "HK"}
+VALUE_DEP_HEADS = {"L", "D", "W", "T", "Ls", "Sq", "Co", "Mp", "Dc", "Rx", "SW", "EW", "HK"}
 
 
 def is_valuedep(tx):
@@ -314,7 +337,7 @@ def heads(tx, acc=None):
     else:
         acc.add(tx[0])
         for a in tx[1:]:
-            if isinstance(a, (list, tuple)) and tx[0] not in ("L", "HK", "H", "CC", "Rx", "SW", "EW", "Df"):
+            if isinstance(a, (list, tuple)) and tx[0] not in ("L", "HK", "H", "CC", "Rx", "SW", "EW", "Df", "W"):
                 heads(a, acc)
             elif isinstance(a, str) and tx[0] in ("U", "I", "X", "S", "T", "Ls", "Sq", "Co", "Mp", "Dc", "Ty", "D"):
                 acc.add("C")
@@ -324,7 +347,7 @@ def heads(tx, acc=None):
 def depth(tx):
     if isinstance(tx, str):
         return 0
-    if tx[0] in ("L", "HK", "H", "CC", "Rx", "SW", "EW", "Df"):
+    if tx[0] in ("L", "HK", "H", "CC", "Rx", "SW", "EW", "Df", "W"):
         return 1
     subs = [a for a in tx[1:] if not (tx[0] == "D" and a is tx[2])]
     if tx[0] == "G":
@@ -379,6 +402,13 @@ def ann(tx, env, spelling="typing"):
         return env.class_pred(a[0])
     if h == "L":
         return typing.Literal[tuple(_litvals(a, env))]
+    if h == "W":
+        # ["W", p0, p1, ...]: pi a value or "*" (typing.Any, the documented wildcard)
+        key = ("W", tname(tx))
+        if key not in env._dep_cache:
+            ps = tuple(typing.Any if x == "*" else x for x in a)
+            env._dep_cache[key] = env.wild_check()[ps if len(ps) != 1 else ps[0]]
+        return env._dep_cache[key]
     if h == "D" and len(a) > 2 and a[2] == "shared":
         # ["D", bound, pred, "shared"]: the shared condition object, bare when the bound is its own (int)
         c = env.shared_check(a[1])
@@ -575,6 +605,8 @@ def accepts(tx, env, v):
         if b is not True:
             return b
         return bool(VALUE_PREDS[a[1]](v))
+    if h == "W":
+        return isinstance(v, tuple) and len(v) == len(a) and all(s == "*" or e == s for e, s in zip(v, a))
     if h == "T":
         if not isinstance(v, tuple) or len(v) != len(a):
             return False
@@ -648,7 +680,7 @@ def bound_of(tx, env):
         return sorted(ts)[0] if len(ts) == 1 else ["U", *sorted(ts)]
     if h == "D":
         return tx[1]
-    if h == "T":
+    if h in ("T", "W"):
         return "tuple"
     if h in ("Ls",):
         return "list"
